@@ -203,8 +203,10 @@ impl Ctx {
         let op = self.prog.term.op.clone();
         let calls = self.red_calls.clone();
         let crash = self.red_crash;
+        let logred = !self.prog.is_big();
         move |a: E, b: E| {
             let n = calls.fetch_add(1, Ordering::Relaxed) + 1;
+            if logred {
             sched::log(&format!(
                 "\"e\":\"red\",\"a\":{},\"t\":{},\"x\":{},\"y\":{},\"xk\":{},\"yk\":{}",
                 sched::actor(),
@@ -214,6 +216,7 @@ impl Ctx {
                 a.key,
                 b.key
             ));
+            }
             if crash == Some(n) {
                 panic!("injected panic in reduce call {}", n);
             }
@@ -427,16 +430,18 @@ pub struct SrcIter {
     pos: usize,
     inside: Arc<AtomicBool>,
     spin: u32,
+    log: bool,
 }
 
 impl SrcIter {
-    pub fn new(items: Vec<E>, known: bool, spin: u32) -> Self {
+    pub fn new(items: Vec<E>, known: bool, spin: u32, log: bool) -> Self {
         SrcIter {
             items: items.into_iter(),
             known,
             pos: 0,
             inside: Arc::new(AtomicBool::new(false)),
             spin,
+            log,
         }
     }
 }
@@ -452,12 +457,14 @@ impl Iterator for SrcIter {
         }
         let x = self.items.next();
         let p: i64 = if x.is_some() { self.pos as i64 } else { -1 };
+        if self.log {
         sched::log(&format!(
             "\"e\":\"nx\",\"a\":{},\"t\":{},\"pos\":{}",
             sched::actor(),
             sched::tid(),
             p
         ));
+        }
         if x.is_some() {
             self.pos += 1;
         }
@@ -495,9 +502,8 @@ impl Iterator for Unbounded {
 }
 
 pub fn items_of(prog: &Prog) -> Vec<E> {
-    prog.input
-        .iter()
-        .enumerate()
-        .map(|(i, v)| E::new(i as u32, *v))
+    let l = prog.input.len().max(1);
+    (0..prog.len())
+        .map(|i| E::new(i as u32, prog.input[i % l]))
         .collect()
 }
